@@ -212,6 +212,17 @@ func init() {
 					at := g.Intn(len(reqs) + 1)
 					reqs = append(reqs[:at], append([]Req{{Kind: "url", URL: fmt.Sprintf("http://cdn.test/a%d/s%d/x", k%np, k%len(subs)), Source: "https://" + sb + "/", Type: 4}}, reqs[at:]...)...)
 				}
+				// pages covered by DIFFERENT document-level exceptions (or none) asking for the same blocked resources through
+				// the web engine at the same time: the rules of one page never leak into the verdict of another.  Placed at
+				// the head of the history, where the warm pass hammers (each goroutine its own five requests)
+				ls[0].content += "||shared-cdn.test^\n||shared-cdn.test^$script,important\n/gen-banner\n@@||page-u.test^$urlblock\n@@||page-g.test^$genericblock\n@@||page-d.test^$document\n@@||page-e.test^$elemhide,urlblock\n"
+				pages := []string{"http://page-u.test/", "http://page-g.test/a", "http://page-n.test/", "http://page-d.test/", "http://page-e.test/x", ""}
+				var head []Req
+				for k := 0; k < 48; k++ {
+					head = append(head, Req{Kind: "web", URL: Pick(g, []string{"http://shared-cdn.test/x.js", "http://other.test/gen-banner", "http://shared-cdn.test/gen-banner"}),
+						Source: pages[(k+k/5)%len(pages)], Type: Pick(g, []uint32{2, 4, 32})})
+				}
+				reqs = append(head, reqs...)
 				n := Pick(g, []int{2, 3, 4, 8, 16, 32})
 				emit(encodeStorage(ls) + "\t" + encodeReqs(reqs) + "\t" + fmt.Sprint(n) + "\t" + b01(i%2 == 0))
 			}
